@@ -681,6 +681,12 @@ impl Check for C15Check {
                 // many distinct constants of one kind (or a mix) in one object, then every one of them again
                 let kind = LARGE_KINDS[(*i as usize) % LARGE_KINDS.len()];
                 let n = LARGE_SIZES[(*i as usize) / LARGE_KINDS.len()];
+                if n > 5000 && matches!(kind, "text" | "bytes" | "mixed") {
+                    // BasicGarnishData grows its heap by a fixed step and copies it each time: tens of thousands of multi-cell
+                    // values take minutes (quadratic, not a fault); the large sizes are run with one-cell constants only
+                    ctx.class("large-store-size-skipped-for-multi-cell-values");
+                    return;
+                }
                 ctx.render(|| format!("{} distinct {} constants, then each of them again (forwards, then backwards)", n, kind));
                 ctx.class("large-store");
                 ctx.nontrivial(fnv(format!("large{}", i).as_bytes()));
